@@ -6,11 +6,20 @@ import tempfile
 import numpy as np
 
 
+def nonmonotonic(nl):
+    """image_kw for synth.product: line times that are NOT increasing (descending, the last line later again), so that time offsets
+    relative to the first line have both signs"""
+    return {"line": lambda i: {"sensor_acquisition_date": {"year": 2020, "day_of_year": 60, "milliseconds": 1000 * ((nl - i) if i < nl - 1 else 2 * nl)},
+                               "sensor_acquisition_date_microseconds": 1000000 * ((nl - i) if i < nl - 1 else 2 * nl) + 7}}
+
+
 def with_product(fn, level="1.5", **kw):
     from vlib import synth
 
     root = tempfile.mkdtemp(prefix="vreplay_")
     os.environ["XDG_CACHE_HOME"] = os.path.join(root, "_xdg")
+    if "image_kw" not in kw:
+        kw["image_kw"] = nonmonotonic(kw.get("n", 5))
     try:
         datas = synth.product(synth.dir_writer(os.path.join(root, "prod")), level, **kw)
         return fn(os.path.join(root, "prod"), datas)
@@ -125,7 +134,7 @@ def cache_transparency(protocol="file", level="1.5", rpc_w=2, rpc_r=3, producer=
             base = os.path.join(root, "prod")
             write = synth.dir_writer(base)
             url = base if protocol == "file" else f"file://{base}"
-        datas = synth.product(write, level, n=n, p=p, pols=("HH", "HV"))
+        datas = synth.product(write, level, n=n, p=p, pols=("HH", "HV"), image_kw=nonmonotonic(n))
         out = {"url": url}
         if producer == "option":
             ceos_alos2.open_alos2(url, backend_options={"use_cache": False, "create_cache": True, "records_per_chunk": rpc_w})
@@ -187,7 +196,7 @@ def cache_states(local, remote, k_frac=0.5, use_cache=True, create_cache=False, 
     cpath.cache_root = platformdirs.user_cache_path(cpath.project_name)
     try:
         base = os.path.join(root, "prod")
-        datas = synth.product(synth.dir_writer(base), level, n=5, p=4, pols=("HH", "HV"))
+        datas = synth.product(synth.dir_writer(base), level, n=5, p=4, pols=("HH", "HV"), image_kw=nonmonotonic(5))
         ceos_alos2.open_alos2(base, backend_options={"use_cache": False, "create_cache": True, "records_per_chunk": 2})
         docs = {}
         for f in glob.glob(os.path.join(cpath.cache_root, "*", "*.index")):
@@ -247,7 +256,7 @@ def history(level="1.5"):
     cpath.cache_root = platformdirs.user_cache_path(cpath.project_name)
     try:
         base = os.path.join(root, "prod")
-        datas = synth.product(synth.dir_writer(base), level, n=5, p=4, pols=("HH", "HV"))
+        datas = synth.product(synth.dir_writer(base), level, n=5, p=4, pols=("HH", "HV"), image_kw=nonmonotonic(5))
 
         def snapshot():
             return {f: hashlib.sha256(open(os.path.join(base, f), "rb").read()).hexdigest() for f in sorted(os.listdir(base))}
@@ -484,11 +493,11 @@ def pixels(level="1.5", n=5, p=3, rpc=2, protocol="file", seed=0):
         if protocol == "memory":
             fs = fsspec.filesystem("memory")
             base = f"/vpix_{os.path.basename(root)}"
-            synth.product(lambda nm, b: fs.pipe_file(f"{base}/{nm}", b), level, n=n, p=p, pols=("HH",), datas={name: data})
+            synth.product(lambda nm, b: fs.pipe_file(f"{base}/{nm}", b), level, n=n, p=p, pols=("HH",), datas={name: data}, image_kw=nonmonotonic(n))
             url = f"memory://{base}"
         else:
             base = os.path.join(root, "prod")
-            synth.product(synth.dir_writer(base), level, n=n, p=p, pols=("HH",), datas={name: data})
+            synth.product(synth.dir_writer(base), level, n=n, p=p, pols=("HH",), datas={name: data}, image_kw=nonmonotonic(n))
             url = base if protocol == "file" else f"file://{base}"
         tree = ceos_alos2.open_alos2(url, backend_options={"use_cache": False, "records_per_chunk": rpc})
         var = tree["imagery/HH/data"]
@@ -646,13 +655,61 @@ def same_instant(year=2020, doy=366, ms=86399999):
             "attitude point": np.datetime64(tree["metadata/attitude/attitude"]["time"].values[0], "ns"),
         }
         bad = {k: str(v) for k, v in got.items() if v != want}
+        shown = tree["summary/scene_specification"].attrs.get("date")
+        if shown != base.date().isoformat():
+            bad["scene id date in the summary"] = str(shown)
         return {"reproduced": bool(bad), "detail": bad, "instant": str(want)}
 
     line = {"sensor_acquisition_date": {"year": year, "day_of_year": doy, "milliseconds": ms}}
     ov = {"attitude": {"data_points": [{"time": {"day_of_year": doy, "millisecond_of_day": ms}}]},
           "platform_position": {"datetime_of_first_point": {"date": f"{base.year:4d}{base.month:4d}{base.day:4d}", "day_of_year": doy, "seconds_of_day": ms / 1000.0}},
           "dataset_summary": {"scene_center_time": base.strftime("%Y%m%d%H%M%S") + "%03d" % (ms % 1000)}}
-    return with_product(run, level="1.5", n=2, p=3, pols=("HH",), image_kw={"line": line}, leader_kw={"n_att": 1, "overrides": ov})
+    # the product is named after its acquisition day (scene id in the file names and the summary), as real products are
+    scene = "ALOS2290760600-" + base.strftime("%y%m%d")
+    try:
+        return with_product(run, level="1.5", n=2, p=3, pols=("HH",), image_kw={"line": line}, leader_kw={"n_att": 1, "overrides": ov}, scene=scene)
+    except Exception as e:  # noqa: BLE001 - a product acquired at this instant cannot be opened at all
+        return {"reproduced": True, "detail": {"open_alos2": f"{type(e).__name__}: {str(e)[:160]}"}, "instant": str(want)}
+
+
+def pinned_leader_times():
+    """a leader written from the PINNED layout (independent of the live structs): the 17-character scene centre stamp and the
+    platform-position first point read back as the instants written"""
+    from ceos_alos2.sar_leader.io import open_sar_leader
+    from vlib import layoutspec as LS
+    from vlib import specwriter as W
+
+    spec = LS.load()
+    raw = bytearray(W.write("sar_leader", spec, record_lengths=True)[0])
+    params = W.PARAMS["sar_leader"]
+
+    def put(path, text):
+        for e in spec["sar_leader"]["leaves"]:
+            if e["path"] == list(path):
+                off, w = W.lin(e["off"], params), W.lin(e["width"], params)
+                assert len(text) <= w, (path, text, w)
+                raw[off:off + w] = text.ljust(w).encode() if e["kind"][-1][0] == "PaddedString" else text.rjust(w).encode()
+                return
+        raise KeyError(path)
+
+    bad = {}
+    for stamp, want_sc, secs, want_pp in (("20200229235959999", "2020-02-29T23:59:59.999000", "86399.999", "2020-02-29T23:59:59.999000"),
+                                          ("20201231000000001", "2020-12-31T00:00:00.001000", "0.001", "2020-12-31T00:00:00.001000")):
+        put(["dataset_summary", "scene_center_time"], stamp)
+        put(["platform_position", "datetime_of_first_point", "date"], f"{int(stamp[:4]):4d}{int(stamp[4:6]):4d}{int(stamp[6:8]):4d}")
+        put(["platform_position", "datetime_of_first_point", "seconds_of_day"], secs)
+        try:
+            g = open_sar_leader({"LED": bytes(raw)}, "LED")
+            got_sc = g["dataset_summary"].attrs.get("scene_center_time")
+            got_pp = g["platform_position"].attrs.get("datetime_of_first_point")
+        except Exception as e:  # noqa: BLE001
+            bad[stamp] = f"open_sar_leader raised {type(e).__name__}: {str(e)[:120]}"
+            continue
+        if got_sc != want_sc:
+            bad[stamp + " scene centre"] = str(got_sc)
+        if got_pp != want_pp:
+            bad[stamp + " platform position first point"] = str(got_pp)
+    return {"reproduced": bool(bad), "detail": bad}
 
 
 def line_stamps(us=(86399999999, 1, 43200123456)):
